@@ -471,6 +471,14 @@ func (e *Exec) trBin(x *SBin, env *SpecEnv) TV {
 				return TV{Mod(a, pow2(k)), specInt}
 			}
 		}
+		e.needBitAxioms()
+		return TV{mk(SInt, "uf_and", a, b), specInt}
+	case "|":
+		e.needBitAxioms()
+		return TV{mk(SInt, "uf_or", a, b), specInt}
+	case "^":
+		e.needBitAxioms()
+		return TV{mk(SInt, "uf_xor", a, b), specInt}
 	}
 	e.specFail("operator %s unsupported on mathematical integers: %s", x.Op, specString(x))
 	return TV{}
@@ -994,6 +1002,8 @@ func rewriteSelfCalls(txt, name, hargs string) string {
 }
 
 
+// parameters of an enclosing predicate instance (nested pred calls inside a pred body)
+var outerParamRe = regexp.MustCompile(`\b[ib]!p[0-9]+\b`)
 var innerPredRe = regexp.MustCompile(`\(P_[A-Za-z0-9_]+![0-9a-f]+ v!pred\)`)
 var qvarRe = regexp.MustCompile(`![q]([0-9]+)`)
 var qvarFullRe = regexp.MustCompile(`[A-Za-z_][A-Za-z0-9_]*![q][0-9]+`)
@@ -1001,7 +1011,8 @@ var qvarFullRe = regexp.MustCompile(`[A-Za-z_][A-Za-z0-9_]*![q][0-9]+`)
 // predCall: a set-like predicate P(args, v) is given a name per distinct (args, heap) instance:
 //   (declare-fun P!h (Int) Bool)   (forall v. P!h(v) = body)  with trigger P!h(v)
 // so that quantified views  forall v :: P(a,v) <==> ...  have the natural triggers P!h(v).
-func (e *Exec) predCall(sf *SpecFunc, sfPkg *types.Package, args []TV, env *SpecEnv) (TV, bool) {
+func (e *Exec) predCall(sf *SpecFunc, sfPkg *types.Package, args0 []TV, env *SpecEnv) (TV, bool) {
+	args := append([]TV(nil), args0...) // the caller falls back to inline expansion with its own arguments
 	n := &SpecEnv{vars: map[string]TV{}, oldVars: map[string]TV{}, cur: env.cur, old: env.old, pkg: sf.Pkg, tpkg: sfPkg, depth: env.depth + 1}
 	last := len(sf.Params) - 1
 	if sf.Prop {
@@ -1035,7 +1046,8 @@ func (e *Exec) predCall(sf *SpecFunc, sfPkg *types.Package, args []TV, env *Spec
 		ph := fmt.Sprintf("i!p%d", len(idxActuals))
 		idxActuals = append(idxActuals, Term{parts[2], SInt})
 		n.vars[p.Name] = TV{Term{"(select " + parts[1] + " " + ph + ")", a.T.Sort}, a.Ty}
-		args[i] = n.vars[p.Name]
+		// the slice part may itself mention outer parameters / bound variables: scan it below, but not the new placeholder
+		args[i] = TV{Term{parts[1], a.T.Sort}, a.Ty}
 	}
 	// variables bound by enclosing quantifiers that occur in the fixed arguments become parameters of the predicate
 	var bvars []string
@@ -1044,7 +1056,7 @@ func (e *Exec) predCall(sf *SpecFunc, sfPkg *types.Package, args []TV, env *Spec
 		if i == last {
 			continue
 		}
-		for _, m := range qvarFullRe.FindAllString(a.T.S, -1) {
+		for _, m := range append(qvarFullRe.FindAllString(a.T.S, -1), outerParamRe.FindAllString(a.T.S, -1)...) {
 			if !seenB[m] {
 				seenB[m] = true
 				bvars = append(bvars, m)
